@@ -874,7 +874,12 @@ pub fn content(rng: &mut Rng) -> Content {
     let s = (rng.pick(CONTENT_STRINGS)).to_string();
     let stream = if rng.chance(1, 5) { rng.range(1, 3) as u8 } else { 0 };
     // streamed as raw UTF-8 byte pieces (may end inside a character) one time in three
-    let utf8_chunks = if stream > 0 && rng.chance(1, 3) { rng.range(2, 5) as u8 } else { 0 };
+    let utf8_chunks = if stream > 0 && rng.chance(1, 3) {
+        // whole content in byte pieces, or (1 in 4) a source truncated inside its last character
+        if rng.chance(1, 4) { 100 + rng.range(1, 4) as u8 } else { rng.range(2, 5) as u8 }
+    } else {
+        0
+    };
     Content { s, html: rng.bool(), stream, fail_stream: false, utf8_chunks }
 }
 
